@@ -45,6 +45,12 @@ def subjects(tier):
         n += 1
         if n >= (200 if tier == 'quick' else 700):
             break
+    # a selection choice that is FORCED (gets no variable) in front of later variables: variable index != choice index
+    out.append(('sel', dict(starts=['n1', 'n4', 'n5'], nodes=['n2', 'n3', 'n11', 'n12', 'n21', 'n22', 'n31', 'n32', 'n41', 'n42'],
+                            edges=[['n11', 'n2'], ['n12', 'n3']],
+                            choices=[['C1', 'n1', ['n11', 'n12']], ['C2', 'n2', ['n21', 'n22']], ['C3', 'n3', ['n31', 'n32']],
+                                     ['C4', 'n4', ['n21', 'n22']], ['C5', 'n5', ['n41', 'n42']]],
+                            incompat=[['n21', 'n31'], ['n11', 'n41'], ['n12', 'n42']])))
     k = 0
     for spec in families.dv1('quick'):
         if len(spec['dv']) == 2 and spec['choices']:
